@@ -897,6 +897,8 @@ class SimplicialComplex(Hypergraph):
         self.remove_simplex_id = frozen
         self.remove_simplex_ids_from = frozen
         self.clear = frozen
+        self.clear_edges = frozen
+        self.random_edge_shuffle = frozen
         self.frozen = True
 
     @property
